@@ -1328,9 +1328,8 @@ func (vx *Vaxis) disableModes() {
 	if vx.caps.osc176 {
 		_, _ = vx.tw.WriteString(tparm(setAppID, vx.appIDLast))
 	}
-	if vx.caps.inBandResize {
-		_, _ = vx.tw.WriteString(decrst(inBandResize))
-	}
+	// sendQueries sets this mode blindly, so reset it unconditionally
+	_, _ = vx.tw.WriteString(decrst(inBandResize))
 	// Most terminals default to "text" mouse shape
 	_, _ = vx.tw.WriteString(tparm(mouseShape, MouseShapeTextInput))
 	_, _ = vx.tw.Flush()
